@@ -707,6 +707,7 @@ def run(tier, seed, work, repo, suspects=None, strict_suspects=None):
     for uname, uds, berr in built:
         if berr is not None and all(x.get('suspect') and not x.get('strict') for x in uds):
             result['suspects_not_built'] = result.get('suspects_not_built', 0) + len(uds)
+            result.setdefault('suspect_build_errors', []).append({'dsl': uds[0]['text'][:600], 'stderr': berr[-1200:]})
             continue
         if berr is not None:
             for x in uds:
